@@ -22,7 +22,7 @@ from collections.abc import MutableMapping
 from engine.symrun import core
 from engine.symrun.core import Explorer, SInt, SBool, PathAbort
 
-REPO_PREFIX = '/repo/valjean'
+REPO_PREFIX = os.environ.get('VERIF_TREE', '/repo') + '/valjean'
 
 
 class Cut(BaseException):
